@@ -727,6 +727,10 @@ def run(ctx: Ctx):
                    "probe did not complete")
     t0 = time.time()
     units2 = _phase2(ctx, rng, probes)
+    if os.environ.get("C01_SKIP_DISTURBED"):      # test hook of the search protocol only: pretend the planned episodes found nothing
+        ctx.notes.append(f"C01_SKIP_DISTURBED set: {len(units2)} planned units of disturbed episodes were NOT run")
+        units2 = []
+        units1 = [u for u in units1]
     recs2 = _pool_map(units2, n_workers)
     _merge(ctx, units2, recs2, all_lines, all_impl, env_viol)
     ctx.cov["phase2_wall_s"] = round(time.time() - t0, 1)
